@@ -170,6 +170,10 @@ const (
 
 // nonNilErrExpr reports whether e is syntactically a non-nil error value: &T{...}, T{...},
 // a package-level error variable (sentinel), errors.New / fmt.Errorf call.
+// activeProg: the program the running check analyses (for facts that need a callee's body).
+var activeProg *Prog
+var nonNilDepth int
+
 func nonNilErrExpr(info *types.Info, e ast.Expr) bool {
 	switch x := ast.Unparen(e).(type) {
 	case *ast.UnaryExpr:
@@ -207,6 +211,28 @@ func nonNilErrExpr(info *types.Info, e ast.Expr) bool {
 			// constructor functions of this module that return a concrete error value: new*Error
 			if strings.HasPrefix(n, "new") && strings.HasSuffix(n, "Error") {
 				return true
+			}
+			// a function of the analysed module whose every return is itself a non-nil error
+			// expression (an error-formatting helper)
+			if activeProg != nil && nonNilDepth < 2 {
+				if cf := activeProg.CtxOfObj(fn.Origin()); cf != nil && cf.Body != nil {
+					sig := fn.Type().(*types.Signature)
+					if sig.Results().Len() == 1 && types.TypeString(sig.Results().At(0).Type(), nil) == "error" {
+						rets := cf.Returns()
+						all := len(rets) > 0
+						nonNilDepth++
+						for _, rv := range rets {
+							rs := cf.G.V[rv].Node.(*ast.ReturnStmt)
+							if len(rs.Results) != 1 || !nonNilErrExpr(cf.Info(), rs.Results[0]) {
+								all = false
+							}
+						}
+						nonNilDepth--
+						if all {
+							return true
+						}
+					}
+				}
 			}
 		}
 	}
